@@ -84,12 +84,12 @@ def run(ck):
     # monotonicity
     def monomial_sign(e):
         """+1 / -1 if e is a non-zero monomial in positive atoms, else 0."""
-        if e.is_zero() or len(e.num.t) != 1 or len(e.den.t) != 1:
+        if e.is_zero() or len(e.num.t) != 1 or e.df:
             return 0
         if not all("pos" in poly.T.get(i).flags for i in e.atom_ids()):
             return 0
-        (c1,), (c2,) = e.num.t.values(), e.den.t.values()
-        return 1 if c1 * c2 > 0 else -1
+        (c1,) = e.num.t.values()
+        return 1 if c1 > 0 else -1
 
     for f, fn in ((m, fm), (w, fw)):
         D = Rat(f.den)
